@@ -22,6 +22,8 @@ def check(ctx):
     eng = ts.Engine(fx)
     for p in R.selfcheck(fx):
         raise __import__("facts").InfraError("role self-check: " + p)
+    import lockrules
+    lockrules.check_spin_lock_primitive(ctx, "R20.2")
     coros = [f for f in fx.fns if f.get("is_coroutine")]
     n_async_send = 0
     for f in coros:
